@@ -219,6 +219,13 @@ class C15(Check):
                           for lg in (False, True)}
         self.platforms = {(a, c): SgxPlatform(Rng("c15-sgx-%d-%d" % (a, c)), a, c)
                           for a in AUTH_LENS for c in CHAIN_LENS}
+        # devices whose UI and Signer report different versions, so that a version printed from
+        # the wrong source shows; an enclave of another version
+        for lg in (False, True):
+            for ui_v, sg_v in (("5.4", "5.6"), ("5.6", "5.4"), ("5.2", "5.1")):
+                self.factories[(lg, "v%s/%s" % (ui_v, sg_v))] = LedgerFactory(
+                    Rng("c15-ledger-%s" % lg), legacy_signer=lg, ui_version=ui_v, signer_version=sg_v)
+        self.platforms[(32, 3, "v5.6")] = SgxPlatform(Rng("c15-sgx-32-3"), 32, 3, version="5.6")
         # devices whose printed values start with 00 / a zero nibble / are all zero / all ff
         for prof in L.VALUE_PROFILES[1:]:
             for lg in (False, True):
@@ -323,7 +330,7 @@ class C15(Check):
         return self.platforms[(cfg["auth"], cfg["chain"], cfg["values"])]
 
     def ud_for(self, cfg):
-        if cfg.get("values") is not None:
+        if cfg.get("values") is not None and not cfg["values"].startswith("v"):
             return L.shape(self.ud, cfg["values"])
         if cfg.get("sigshape") is not None:
             return self.sig_shapes[cfg["sigshape"]]
@@ -383,6 +390,7 @@ class C15(Check):
         for sp in UD_SPELLINGS:
             cs.append({"kind": "ud-spellings", "udspell": sp})
         cs.append({"kind": "signature-shapes"})
+        cs.append({"kind": "versions"})
         for zone in seams.ZONES:
             cs.append({"kind": "sgx-zones", "zone": zone})
         return cs
@@ -427,6 +435,15 @@ class C15(Check):
                                             "values": case["values"]}, None, "genuine", stats, vs)
             self.execute("sgx", {"auth": 32, "chain": 3, "values": case["values"]}, None,
                          "genuine", stats, vs)
+            return vs
+        if k == "versions":
+            for key in sorted(kk for kk in self.factories if isinstance(kk, tuple)
+                              and str(kk[1]).startswith("v")):
+                for pages in (1, 2, 3, 4):
+                    self.execute("ledger", {"pages": pages, "legacy": key[0], "values": key[1]},
+                                 None, "genuine", stats, vs)
+            self.execute("sgx", {"auth": 32, "chain": 3, "values": "v5.6"}, None, "genuine",
+                         stats, vs)
             return vs
         if k == "signature-shapes":
             # genuine devices whose quote signature has each shape the firmware's DER encoder
@@ -759,12 +776,12 @@ class C15(Check):
         self.fixed_point(setup, mism, "setup-file")
         els = {e["name"]: e for e in doc.get("elements", [])}
         endo = dev.endorsement
-        ui_msg = L.ui_message(L.UI_HEADER, ud, dev.wallet(L.UI_PATH).pub33, fac.signer_hash,
+        ui_msg = L.ui_message(fac.ui_header, ud, dev.wallet(L.UI_PATH).pub33, fac.signer_hash,
                               dev.signer_iteration)
         if fac.legacy_signer:
-            sg_msg = L.legacy_message(L.LEGACY_HEADER, dev.keys_hash())
+            sg_msg = L.legacy_message(fac.signer_header, dev.keys_hash())
         else:
-            sg_msg = L.powhsm_message(L.POWHSM_HEADER, b"led", ud, dev.keys_hash(),
+            sg_msg = L.powhsm_message(fac.signer_header, b"led", ud, dev.keys_hash(),
                                       fac.best_block, fac.last_tx_hash[:8], 0)
         want = {
             ("device", "message"): (bytes([2]) + fac.cert_header + fac.device.pub65).hex(),
@@ -797,10 +814,10 @@ class C15(Check):
               "Derived public key (%s)" % L.UI_PATH: dev.wallet(L.UI_PATH).pub33.hex(),
               "Authorized signer hash": fac.signer_hash.hex(),
               "Authorized signer iteration": str(dev.signer_iteration),
-              "Installed UI hash": fac.ui_hash.hex(), "Installed UI version": "5.4"}
+              "Installed UI hash": fac.ui_hash.hex(), "Installed UI version": fac.ui_version}
         ws = {p: dev.wallet(p).pub33.hex() for p in L.PATHS}
         ws.update({"Hash": dev.keys_hash().hex(), "Installed Signer hash": fac.signer_hash.hex(),
-                   "Installed Signer version": "5.3" if fac.legacy_signer else "5.4"})
+                   "Installed Signer version": fac.signer_version})
         if not fac.legacy_signer:
             ws.update({"Platform": "led", "UD value": ud.hex(),
                        "Best block": fac.best_block.hex(),
@@ -926,7 +943,8 @@ class C15(Check):
         w.update({"Hash": plat.keys_hash.hex(),
                   "Installed powHSM MRENCLAVE": plat.enclave.mrenclave.hex(),
                   "Installed powHSM MRSIGNER": plat.enclave.mrsigner.hex(),
-                  "Installed powHSM version": "5.4", "Platform": "sgx", "UD value": ud.hex(),
+                  "Installed powHSM version": plat.version, "Platform": "sgx",
+                  "UD value": ud.hex(),
                   "Best block": plat.best_block.hex(),
                   "Last transaction signed": plat.last_tx_hash[:8].hex(), "Timestamp": "0"})
         if s is None:
